@@ -344,9 +344,17 @@ def nodes_deep(prog, root, depth=2, _seen=None, crate=None):
                     yield x
 
 
+_cm_cache = {}
+
+
 def callers_map(prog, crate=None):
     """callee path -> set of caller body paths (by resolved local callees, incl. function items used as values)."""
-    res = {}
+    key = (id(prog), crate)
+    if key in _cm_cache:
+        return _cm_cache[key]
+    if len(_cm_cache) > 6:
+        _cm_cache.clear()
+    res = _cm_cache.setdefault(key, {})
     for b in prog.bodies():
         if crate and b["_crate"].name != crate:
             continue
